@@ -474,3 +474,36 @@ pub fn scene_strategy(max_partners: usize) -> impl Strategy<Value = Scene> {
         },
     )
 }
+
+/// Two valid areal geometries (Polygon / MultiPolygon) and simple line work on the same
+/// board, all coincidence-biased towards the first one.
+#[derive(Clone, Debug, Serialize, Deserialize)]
+pub struct ArealScene {
+    pub a: G,
+    pub b: G,
+    pub line: G,
+}
+
+pub fn areal_scene_strategy() -> impl Strategy<Value = ArealScene> {
+    let areal_kind = || prop_oneof![3 => Just(5u8), 3 => Just(6u8), 1 => Just(10u8), 1 => Just(11u8), 2 => Just(12u8)];
+    let line_kind = || prop_oneof![Just(2u8), Just(3u8), Just(4u8)];
+    (raw_geom(), raw_geom(), raw_geom(), areal_kind(), areal_kind(), line_kind(), 1usize..=BOARD, mat_strategy()).prop_filter_map(
+        "out of domain",
+        |(mut ra, mut rb, mut rl, ka, kb, kl, g, m)| {
+            ra.kind = ka;
+            rb.kind = kb;
+            rl.kind = kl;
+            let a0 = build_geom(&ra, g, &[], None)?;
+            let pool = feature_pool(&a0);
+            let b0 = build_geom(&rb, g, &pool, Some(cells_of(&ra)))?;
+            // line work: always biased to A's features (runs along the boundary, through vertices)
+            rl.flags &= !1;
+            let l0 = build_geom(&rl, g, &pool, None)?;
+            let (a, b, line) = (apply_mat(&a0, &m), apply_mat(&b0, &m), apply_mat(&l0, &m));
+            if !in_relate_domain(&a) || !in_relate_domain(&b) || !in_relate_domain(&line) {
+                return None;
+            }
+            Some(ArealScene { a, b, line })
+        },
+    )
+}
